@@ -175,3 +175,75 @@ pub fn fmapq<Q: Quad>(op: &Op, q: Q) -> Option<Spog<SimpleTerm<'static>>> {
         None
     }
 }
+
+// ---------------------------------------------------------------------------------------------
+// type erasure of a chain (compile-time economy)
+
+#[derive(Debug)]
+pub struct Marker;
+impl std::fmt::Display for Marker {
+    fn fmt(&self, f: &mut std::fmt::Formatter<'_>) -> std::fmt::Result {
+        write!(f, "consumer failed (error value kept aside)")
+    }
+}
+impl std::error::Error for Marker {}
+
+type StepFn<'a, E> = Box<
+    dyn FnMut(
+            &mut dyn FnMut([SimpleTerm<'static>; 3]) -> Result<(), Marker>,
+        ) -> sophia_api::source::StreamResult<bool, E, Marker>
+        + 'a,
+>;
+
+/// A chain of real adapters behind one concrete type: each step calls the real chain's
+/// `try_for_some_item`; items are handed on as owned triples; the consumer's error value is
+/// kept aside and given back unchanged. Consumers are then compiled once per error type instead
+/// of once per chain type.
+pub struct Erased<'a, E: std::error::Error> {
+    step: StepFn<'a, E>,
+}
+
+pub fn erase<'a, T>(mut ts: T) -> Erased<'a, T::Error>
+where
+    T: sophia_api::source::TripleSource + 'a,
+{
+    Erased {
+        step: Box::new(move |f| {
+            ts.try_for_some_triple(|t| {
+                let [s, p, o] = t.to_spo();
+                f([s.into_term(), p.into_term(), o.into_term()])
+            })
+        }),
+    }
+}
+
+impl<E> sophia_api::source::Source for Erased<'_, E>
+where
+    E: std::error::Error + Send + Sync + 'static,
+{
+    type Item<'x> = [SimpleTerm<'static>; 3];
+    type Error = E;
+
+    fn try_for_some_item<E2, F>(&mut self, mut f: F) -> sophia_api::source::StreamResult<bool, E, E2>
+    where
+        E2: std::error::Error + Send + Sync + 'static,
+        F: FnMut(Self::Item<'_>) -> Result<(), E2>,
+    {
+        use sophia_api::source::StreamError::{SinkError, SourceError};
+        let mut slot: Option<E2> = None;
+        let r = (self.step)(&mut |t| match f(t) {
+            Ok(()) => Ok(()),
+            Err(e) => {
+                slot = Some(e);
+                Err(Marker)
+            }
+        });
+        match r {
+            Ok(b) => Ok(b),
+            Err(SourceError(e)) => Err(SourceError(e)),
+            Err(SinkError(Marker)) => Err(SinkError(
+                slot.take().expect("ORACLE: adapter chain reported a sink error the consumer never raised"),
+            )),
+        }
+    }
+}
